@@ -62,8 +62,9 @@ ObsStored(e) == {e.stored[i] : i \in DOMAIN e.stored}
 ObsGet(e, t) == LET J == {j \in DOMAIN e.get : e.get[j][1] = t}
                 IN IF J = {} THEN <<>> ELSE e.get[CHOOSE j \in J : TRUE][2]
 
-Resync(e, t) == [t EXCEPT !.routes = ObsRoutes(e),
-                          !.mem = [p \in ObsStored(e) |-> IF p \in DOMAIN t.mem THEN t.mem[p] ELSE t.now]]
+\* (in the intended design the persisted copies equal the in-memory ones)
+Resync(e, t) == LET m == [p \in ObsStored(e) |-> IF p \in DOMAIN t.mem THEN t.mem[p] ELSE t.now]
+                IN [t EXCEPT !.routes = ObsRoutes(e), !.sr = ObsRoutes(e), !.mem = m, !.sp = m]
 
 \* ---- verdict: the statement of C27 over what was observed -------------------
 NoDup(s) == \A i, j \in 1..Len(s) : i # j => s[i] # s[j]
